@@ -5,6 +5,19 @@
 pub uninterp spec fn sb(s: &str) -> Seq<u8>;             // the UTF-8 bytes of s
 pub uninterp spec fn is_cb(s: &str, i: int) -> bool;      // str::is_char_boundary
 pub open spec fn is_ascii_char(c: char) -> bool { (c as u32) < 128 }
+pub uninterp spec fn spec_trim(s: Seq<u8>) -> Seq<u8>;                 // str::trim on the byte view
+pub uninterp spec fn spec_parse_usize(s: Seq<u8>) -> Option<usize>;    // str::parse::<usize>().ok() on the byte view
+// first occurrence of a non-empty pattern
+pub uninterp spec fn first_occ(s: Seq<u8>, pat: Seq<u8>) -> Option<int>;
+#[verifier::external_body]
+pub proof fn axiom_first_occ(s: Seq<u8>, pat: Seq<u8>)
+    requires pat.len() > 0,
+    ensures match first_occ(s, pat) {
+        Some(i) => 0 <= i && i + pat.len() <= s.len() && s.subrange(i, i + pat.len()) == pat
+            && forall|j: int| 0 <= j < i ==> #[trigger] s.subrange(j, j + pat.len()) != pat,
+        None => forall|j: int| 0 <= j && j + pat.len() <= s.len() ==> #[trigger] s.subrange(j, j + pat.len()) != pat,
+    },
+{}
 
 // 0 and len are char boundaries; a position holding an ASCII byte is a boundary and so is the position after it
 #[verifier::external_body]
@@ -20,8 +33,8 @@ fn shim_str_len(s: &str) -> (r: usize) ensures r == sb(s).len() { s.len() }
 fn shim_str_is_empty(s: &str) -> (r: bool) ensures r == (sb(s).len() == 0) { s.is_empty() }
 #[verifier::external_body]
 fn shim_str_trim<'a>(s: &'a str) -> (r: &'a str)
-    // a trimmed string neither starts nor ends with a space (U+0020 is White_Space)
-    ensures sb(r).len() > 0 ==> sb(r)[0] != 32 && sb(r)[sb(r).len() - 1] != 32,
+    // a trimmed string neither starts nor ends with a space (U+0020 is White_Space); which bytes are removed is abstract
+    ensures sb(r) == spec_trim(sb(s)), sb(r).len() > 0 ==> sb(r)[0] != 32 && sb(r)[sb(r).len() - 1] != 32,
 { s.trim() }
 // `s.starts_with(p)` for a string pattern
 #[verifier::external_body]
@@ -68,13 +81,63 @@ fn shim_str_get<'a>(s: &'a str, a: usize, b: usize) -> (r: Option<&'a str>)
 #[verifier::external_body]
 fn shim_str_get_incl<'a>(s: &'a str, a: usize, b: usize) -> (r: Option<&'a str>) { s.get(a..=b) }
 #[verifier::external_body]
-fn shim_str_split_once_char<'a>(s: &'a str, c: char) -> (r: Option<(&'a str, &'a str)>) { s.split_once(c) }
+fn shim_str_split_once_char<'a>(s: &'a str, c: char) -> (r: Option<(&'a str, &'a str)>)
+    requires is_ascii_char(c),
+    // split at the FIRST occurrence: the left part does not contain the delimiter
+    ensures match r { Some((a, b)) => sb(s) == sb(a) + seq![c as u8] + sb(b) && !sb(a).contains(c as u8), None => !sb(s).contains(c as u8) },
+{ s.split_once(c) }
 #[verifier::external_body]
-fn shim_str_rsplit_once_char<'a>(s: &'a str, c: char) -> (r: Option<(&'a str, &'a str)>) { s.rsplit_once(c) }
+fn shim_str_rsplit_once_char<'a>(s: &'a str, c: char) -> (r: Option<(&'a str, &'a str)>)
+    requires is_ascii_char(c),
+    // split at the LAST occurrence: the right part does not contain the delimiter
+    ensures match r { Some((a, b)) => sb(s) == sb(a) + seq![c as u8] + sb(b) && !sb(b).contains(c as u8), None => !sb(s).contains(c as u8) },
+{ s.rsplit_once(c) }
 #[verifier::external_body]
 fn shim_str_strip_prefix_char<'a>(s: &'a str, c: char) -> (r: Option<&'a str>) { s.strip_prefix(c) }
 #[verifier::external_body]
-fn shim_str_parse_usize(s: &str) -> (r: Option<usize>) { s.parse().ok() }
+fn shim_str_parse_usize(s: &str) -> (r: Option<usize>) ensures r == spec_parse_usize(sb(s)) { s.parse().ok() }
+#[verifier::external_body]
+fn shim_str_contains_char(s: &str, c: char) -> (r: bool) requires is_ascii_char(c), ensures r == sb(s).contains(c as u8) { s.contains(c) }
+
+// ---- str::splitn(2, pat) / str::split(pat) with a string pattern: the pieces still to come (stand-in for SplitN / Split) ----
+pub struct StrPieces<'a> { pub rest: Ghost<Seq<&'a str>> }
+pub open spec fn pieces_bytes<'a>(p: Seq<&'a str>) -> Seq<Seq<u8>> { p.map_values(|x: &'a str| sb(x)) }
+pub open spec fn splitn2(t: Seq<u8>, pat: Seq<u8>) -> Seq<Seq<u8>> {
+    match first_occ(t, pat) { Some(i) => seq![t.subrange(0, i), t.subrange(i + pat.len(), t.len() as int)], None => seq![t] }
+}
+pub uninterp spec fn split_all(t: Seq<u8>, pat: Seq<u8>) -> Seq<Seq<u8>>;
+#[verifier::external_body]
+pub proof fn axiom_split_all(t: Seq<u8>, pat: Seq<u8>)
+    requires pat.len() > 0,
+    ensures split_all(t, pat) == (match first_occ(t, pat) { Some(i) => seq![t.subrange(0, i)] + split_all(t.subrange(i + pat.len(), t.len() as int), pat), None => seq![t] }),
+{}
+#[verifier::external_body]
+fn shim_str_splitn<'a>(s: &'a str, n: usize, pat: &str) -> (r: StrPieces<'a>)
+    requires n == 2, sb(pat).len() > 0,   // only the two-piece form is modelled
+    ensures pieces_bytes(r.rest@) == splitn2(sb(s), sb(pat)),
+{ unimplemented!() /* s.splitn(n, pat) */ }
+// `s.split(c)` with a char pattern: pieces by occurrences of the one-byte pattern
+#[verifier::external_body]
+fn shim_str_split_char<'a>(s: &'a str, c: char) -> (r: StrPieces<'a>)
+    requires is_ascii_char(c),
+    ensures pieces_bytes(r.rest@) == split_all(sb(s), seq![c as u8]),
+{ unimplemented!() /* s.split(c) */ }
+#[verifier::external_body]
+fn shim_str_split<'a>(s: &'a str, pat: &str) -> (r: StrPieces<'a>)
+    requires sb(pat).len() > 0,
+    ensures pieces_bytes(r.rest@) == split_all(sb(s), sb(pat)),
+{ unimplemented!() /* s.split(pat) */ }
+#[verifier::external_body]
+fn shim_pieces_last<'a>(p: StrPieces<'a>) -> (r: Option<&'a str>)
+    ensures match r { Some(x) => p.rest@.len() > 0 && x == p.rest@.last(), None => p.rest@.len() == 0 },
+{ unimplemented!() /* p.last() */ }
+#[verifier::external_body]
+fn shim_pieces_next<'a>(p: &mut StrPieces<'a>) -> (r: Option<&'a str>)
+    ensures match r {
+        Some(x) => old(p).rest@.len() > 0 && x == old(p).rest@[0] && final(p).rest@ == old(p).rest@.drop_first(),
+        None => old(p).rest@.len() == 0 && final(p).rest@ == old(p).rest@,
+    },
+{ unimplemented!() /* p.next() */ }
 
 // ---- str::char_indices ----
 #[verifier::external_type_specification]
